@@ -162,6 +162,19 @@ def emit (c : Case) : List Pair :=
   | .json | .text => slogChain c.user [] (.withAttrs c.root :: c.chain) c.call
   | .console => consoleHandle c.user (consoleChain c.user {} (.withAttrs c.root :: c.chain)) c.call
 
+/-- the same through a given derivation chain -/
+def emitVia (chain : List ChainOp) (c : Case) : List Pair :=
+  match c.h with
+  | .json | .text => slogChain c.user [] (.withAttrs c.root :: chain) c.call
+  | .console => consoleHandle c.user (consoleChain c.user {} (.withAttrs c.root :: chain)) c.call
+
+/-- the replay path of a buffered record (`bufferingHandler.Handle` stores `handler: h.underlying`, `flush` calls
+    `br.handler.Handle`): with `keepHandler` the record goes through the handler chain it was logged through, without it
+    (as shipped, K20d) through the root handler, i.e. the empty chain. `keepHandler` is `LogBuf.Flags.keepHandler`, tied to
+    the source by `Tie/C20Handlers.flush_matches_fixed_flags` (`bufferedRecordKeepsHandler ∧ replayThroughRecordHandler`). -/
+def emitReplayed (keepHandler : Bool) (c : Case) : List Pair :=
+  emitVia (if keepHandler then c.chain else []) c
+
 /-- as shipped: the console handler never consults ReplaceAttr (K20a), and a buffered record is
     replayed through the *root* handler, so whatever `With`/`WithGroup` bound is dropped (K20d) -/
 def emitAsIs (c : Case) : List Pair :=
